@@ -112,7 +112,7 @@ impl RandomProp for Boxes {
             .boxed()
     }
     fn cases(env: &Env) -> u64 {
-        env.n(13 * 3000, 13 * 100_000)
+        env.n(13 * 10_000, 13 * 300_000)
     }
 }
 
